@@ -662,6 +662,13 @@ func (db *DB) searchAll(o Object, field, operator string, value interface{}, con
 		return &Search{db: db, err: err}
 	}
 
+	// an invalid pattern is an error, as it is when the field is indexed
+	if pattern, ok := search.Value.(string); ok && operator == "~=" {
+		if _, err = regexp.Compile(pattern); err != nil {
+			return &Search{db: db, err: err}
+		}
+	}
+
 	if s, err = db.schema(o); err != nil {
 		return &Search{db: db, err: err}
 	}
